@@ -111,7 +111,10 @@ def run(R):
                 # large volumes, kept below the int64 range of np.prod (guard of the model: < 2^63 bytes)
                 size = [rng.choice([10 ** 5, 2 ** 17, 2 ** 18 - 1]) for _ in range(3)]
             cs = [rng.choice([1, 2, 8, 32, 64, 128]) for _ in range(3)]
-            sc = {"key": f"s{k}", "size": size, "chunk_sizes": [cs], "resolution": [1, 1, 1],
+            css = [cs]
+            if rng.random() < 0.3:       # several chunk layouts for one scale
+                css += [[rng.choice([1, 4, 16, 64]) for _ in range(3)] for _ in range(rng.choice([1, 2]))]
+            sc = {"key": f"s{k}", "size": size, "chunk_sizes": css, "resolution": [1, 1, 1],
                   "encoding": "raw", "voxel_offset": [0, 0, 0]}
             if rng.random() < 0.25:
                 sc["sharding"] = {"@type": "neuroglancer_uint64_sharded_v1", "shard_bits": rng.randrange(0, 5),
@@ -189,15 +192,17 @@ def _check_info(R, scale_stats, info, real=None, via_cmd=None):
     replies = R.model.batch(reqs)
     rows = [LINE.match(ln) for ln in lines if ln.startswith("Scale ")]
     case = {"data_type": info["data_type"], "num_channels": nch,
-            "scales": [[s["key"], s["size"], s["chunk_sizes"][0]] for s in info["scales"]]}
+            "scales": [[s["key"], s["size"], s["chunk_sizes"]] for s in info["scales"]]}
     big = any(np.prod([float(x) for x in s["size"]]) * itemsize * nch >= 2 ** 63 for s in info["scales"])
     R.case(case, nontrivial=any(-(-s["size"][0] // s["chunk_sizes"][0][0]) > 1 for s in info["scales"]))
-    R.count("stats:" + ("real" if real else "info") + (":int64-overflow" if big else ""))
+    R.count("stats:" + ("real" if real else "info") + (":int64-overflow" if big else "")
+            + (":multi-layout" if any(len(s["chunk_sizes"]) > 1 for s in info["scales"]) else ""))
     if len(rows) != len(reqs) or not all(rows):
         R.violation("scale-stats output not parseable", case, {"stdout": lines[:6]})
         return
     tot_chunks = tot_bytes = 0
-    for (op, (size, cs, _i, _n)), rep, row, s in zip(reqs, replies, rows, info["scales"]):
+    owners = [s for s in info["scales"] for _cs in s["chunk_sizes"]]
+    for (op, (size, cs, _i, _n)), rep, row, s in zip(reqs, replies, rows, owners):
         m_chunks, m_bytes = rep
         rep_chunks = int(row.group(6).replace(",", ""))
         rep_size = row.group(8)
